@@ -12,6 +12,6 @@ sed "s|$base/$id|$s/mut|g" $src/demo.py > $s/demo_mut.py; sed "s|$base/$id|$s/cl
 (cd $s/mut && timeout 300 /venv/bin/python $s/demo_mut.py > $s/demo_mut.txt 2>&1); echo "== demo WITH change rc=$? : $(tail -1 $s/demo_mut.txt | cut -c1-200)"
 (cd $s/clean && timeout 300 /venv/bin/python $s/demo_clean.py > $s/demo_clean.txt 2>&1); echo "== demo WITHOUT change rc=$? : $(tail -1 $s/demo_clean.txt | cut -c1-200)"
 for c in $checks; do
-  (cd /verif && HVSRPY_VERIF_REPO=$s/mut ./check $c --tier quick > $s/check_$c.txt 2>&1); echo "== check $c against the changed tree rc=$?"
+  (cd /verif && HVSRPY_VERIF_WORK=$s/work HVSRPY_VERIF_REPO=$s/mut ./check $c --tier quick > $s/check_$c.txt 2>&1); echo "== check $c against the changed tree rc=$?"
   grep "violation key\|^\[$c\|MACHINERY\|KNOWN" $s/check_$c.txt | cut -c1-240 | head -8
 done
